@@ -28,7 +28,7 @@ import itertools
 import re
 
 from .core import AnalysisError
-from .objmodel import ClassModel, install_re, new_parser_state, open_checkpoints
+from .objmodel import ClassModel, install_re, new_parser_state, counter_value, open_checkpoints, stack_items
 from .ordabs import Ev, ModelRaise, Obj, Sym, Unsupported
 from .repo import Repo
 
@@ -112,8 +112,8 @@ def make_oracle(name: str, script: object, log: list) -> "Oracle | PosOracle":
 
 def observe(state: Obj, pairs: list, result: object) -> dict:
     return {
-        "result": result, "pos": state.pos, "stack": list(state.user_stack.__dict__.get("items", [])), "pairs": [str(p) if not isinstance(p, Obj) else f"Pair({p.__dict__.get('name')},{p.__dict__.get('start')},{p.__dict__.get('end')})" for p in pairs],
-        "frames": len(state.rule_stack.__dict__.get("items", [])), "atomic": state.atomic_depth.__dict__.get("_value"), "negdepth": state.neg_pred_depth,
+        "result": result, "pos": state.pos, "stack": stack_items(state, state.user_stack), "pairs": [str(p) if not isinstance(p, Obj) else f"Pair({p.__dict__.get('name')},{p.__dict__.get('start')},{p.__dict__.get('end')})" for p in pairs],
+        "frames": len(stack_items(state, state.rule_stack)), "atomic": counter_value(state, state.atomic_depth), "negdepth": state.neg_pred_depth,
         "tags": list(state.tag_stack), "open_checkpoints": open_checkpoints(state), "suppress": bool(state.__dict__.get("_suppress_failures")),
     }
 
@@ -326,7 +326,7 @@ def check_ctx_managers(repo: Repo, where: str) -> tuple[int, list[tuple[str, str
                     except ModelRaise as err:
                         bad.append(("atomic_checkpoint raises", f"{desc}: {err}"))
                         continue
-                    got = (st.atomic_depth.__dict__.get("_value"), st.__dict__.get("hide_pairs", False), len(st.atomic_depth.__dict__.get("_snapshots", st.atomic_depth.__dict__.get("_stack", []))))
+                    got = (counter_value(st, st.atomic_depth), st.__dict__.get("hide_pairs", False))
                     if got[0] != depth0:
                         bad.append(("atomic_checkpoint does not put the atomic depth back", f"{desc}: depth {got[0]} afterwards"))
                     if has_hide and got[1] != hide0:
